@@ -128,8 +128,11 @@ def verdict : Fault → Verdict
   | .exc conn timeout runtime ssl closed =>
     -- `except RuntimeError` comes first in the source
     if runtime then (if closed then .raise .sessionClosed else .raise .other)
-    else if conn then (if ssl then .raise .sessionClosed else .retry .conn none)
-    else if timeout then .retry .timeout none
+    else if conn || timeout then
+      -- caught by the retry clause; the SSL close-notify marker in `str(e)` turns it into
+      -- APISessionClosed whatever the backoff
+      if ssl then .raise .sessionClosed
+      else if conn then .retry .conn none else .retry .timeout none
     else .raise .other
 
 inductive Outcome where
